@@ -25,16 +25,16 @@ chk("C03", "model_checking",
     "Every execution of the exhaustive exploration is extended to the destruction of the instance and a per-state lifecycle automaton (alternation, delivery only while entered, nesting, nothing entered at the end, this == &access<State>()) runs over the complete callback trace.",
     ENGINE_NOTE, "explicit-state model checking, trace-automaton oracle over complete histories", "DESIGN.md 4 C03")
 chk("C07", "model_checking",
-    "BFS to a fixpoint over the concrete plan storage (per-region lists, task links, bounds, pool counters) of a real 3-region machine for task capacities 1..3 (thorough 1..5), void and int payloads, ops append / remove-while-iterating (every subset) / clear on every region, each edge compared with a vector-of-vectors reference and a structural invariant on the raw links.",
+    "BFS to a fixpoint over the concrete plan storage (per-region lists, task links, bounds, pool counters) of a real 3-region machine for task capacities 1..3 (thorough 1..5), void and int payloads, ops append / remove-while-iterating (every subset) / clear on every region / the whole-storage reset PlanData::clear() that exit() and load() perform, each edge compared with a vector-of-vectors reference and a structural invariant on the raw links.",
     "Trusts the compilers, sanitizers and std::vector reference; states are op histories replayed on fresh instances; capacities above 5 not explored.",
     "explicit-state BFS on the real plan storage with reference-container oracle", "DESIGN.md 4 C07")
 chk("C18", "exploration",
-    "Bounded-exhaustive enumeration: all 2^N contents x all ops for N<=10 (thorough 13) and structured states for N up to 64; every (unit,width) view on guard-paged and exact-size heap copies; every start alignment x width 1..32 x value alphabet for streams with sentinel; compared with bitset/bit-vector references.",
+    "Bounded-exhaustive enumeration: all 2^N contents x all ops for N<=10 (thorough 13) and structured states for N up to 64; every (unit,width) view on guard-paged and exact-size heap copies; every start alignment x width 1..32 x value alphabet for streams with sentinel; long streams (2048..8200 bits, thorough to 65535) with cursors around every 256-byte boundary; compared with bitset/bit-vector references.",
     "Trusts compilers, ASan, mprotect guard pages, the reference bit vectors. The boolean operator& on intersecting sets is only observed (its meaning is not stated by the property).",
     "bounded-exhaustive enumeration of inputs with reference oracle", "DESIGN.md 4 C18")
 chk("C19", "model_checking",
-    "Explicit-state BFS to a fixpoint over every concrete state (links, vacant list, counters, contents) of the real TaskListT for capacities 1..4 (thorough 1..6), DynamicArrayT for all contents up to capacity 4 (6) and StaticArrayT for all tuples over a small alphabet; each edge is checked against std::map/std::vector and after every clear() a lock-step product search against a fresh pool decides 'behaves as new'.",
-    "Trusts g++/clang++, ASan/UBSan, the std containers used as reference; capacities above 6 and item alphabets above 2 letters are not explored; objects are branched by value copy.",
+    "Explicit-state BFS to a fixpoint over every concrete state (links, vacant list, counters, contents) of the real TaskListT for capacities 1..4 (thorough 1..6), DynamicArrayT for all contents up to capacity 4 (6) plus complete fill paths at capacities 15..17, 127, 128, 255..257 and 65535 (index-type widths), and StaticArrayT for all tuples over a small alphabet; each edge is checked against std::map/std::vector and after every clear() a lock-step product search against a fresh pool decides 'behaves as new'.",
+    "Trusts g++/clang++, ASan/UBSan, the std containers used as reference; pool capacities above 6 and item alphabets above 2 letters are not explored, array capacities above 6 only along the fill path; objects are branched by value copy.",
     "explicit-state BFS on the real containers with a reference-container oracle", "DESIGN.md 4 C19")
 chk("C20", "exploration",
     "All 2^32 seeds of the 32-bit variants (thorough; quick 2^22) and all 2^32 arguments of uniform(uint32_t), windows of 64-bit seeds x 256 outputs, jump(), compared with an independent transcription of the published splitmix/xoshiro reference code (self-checked against published test vectors); digests compared across g++/clang++ builds and re-runs.",
@@ -60,7 +60,7 @@ chk("C09", "model_checking",
     "Every explored processing edge (requests, batches, callback requests, all guard cancel/substitute deviations, manual initial activation) compares previousTransitions()/lastTransitionTo() with the environment's own record of approved and vetoed rounds, and replays the recorded list on an identically prepared replica, which must reach the same configuration without consulting guards and end with exactly the replayed list as its own history; re-activation (enter / replayEnter) is explored from every exit history, not only from the representative of the merged state key.",
     ENGINE_NOTE, "explicit-state model checking with authority/replica differential on every edge", "DESIGN.md 4 C09")
 chk("C10", "model_checking",
-    "Over the complete reachable state graph: every base edge re-executed in storage pre-filled with 0x00/0xFF/0xA5 at fresh addresses (scripted and built-in generator, two compilers) must give identical traces and keys; ordered pairs of histories interleaved on two instances; at every state a copy must continue like the original, not alias it, and leave it unaffected.",
+    "Over the complete reachable state graph: every base edge re-executed in storage pre-filled with 0x00/0xFF/0xA5 at fresh addresses (scripted and built-in generator, two compilers) must give identical traces and keys, and so must every plan setup + step (tasks with and without payload) on plan programs with a payload type; ordered pairs of histories interleaved on two instances; at every state a copy must continue like the original, not alias it, and leave it unaffected.",
     ENGINE_NOTE + " Memory pre-fill patterns are three representatives, not all byte values.",
     "explicit-state model checking with differential (fill / interleaving / copy) oracles", "DESIGN.md 4 C10")
 
@@ -88,6 +88,6 @@ chk("C15", "exploration",
     "Combinations that do not compile are listed, not judged. Trusts the digest (FNV-1a over the complete behaviour record).",
     "full-factorial / covering-array configuration differential over an exhaustive exploration", "DESIGN.md 4 C15")
 chk("C17", "exploration",
-    "All ordered tree shapes with <= 5 (thorough 7) states over composite/orthogonal x headed/headless (plus strategy relabellings and wide regions of every width 1..17 at depth 0..2): identifiers, region ids and every published count are compared value by value with an independent Python numbering, the registry filled at construction (parents, region heads/sizes, ortho units) likewise, peers with the same shape compared directly; three compiler/header variants.",
+    "All ordered tree shapes with <= 5 (thorough 7) states over composite/orthogonal x headed/headless (plus strategy relabellings, wide regions of every width 1..17 at depth 0..2 and flat composites on both sides of every power of two up to width 254): identifiers, region ids and every published count are compared value by value with an independent Python numbering, the registry filled at construction (parents, region heads/sizes, ortho units) likewise, peers with the same shape compared directly, and all five copies of stateId<>()/regionId<>() (FSM, Instance, State, ConstControl, Control) compared for every named state; three compiler/header variants.",
     "Trusts the independent numbering in gen/structures.py (reviewed against the declaration rules) and the compilers; shapes beyond 7 states only through the wide/big families.",
     "bounded-exhaustive enumeration of programs with an independent-numbering oracle", "DESIGN.md 4 C17")
